@@ -1,4 +1,4 @@
-import LinOp.C03.Proofs
+import LinOp.C03.ProofsConvert
 import LinOp.Generated.C03Getitem
 /-!
 C03 — indexing matches torch indexing of the dense matrix.  Property theorems only.
@@ -34,26 +34,13 @@ theorem computeGetitemSize_eq_spec (zi : List (Nat × Item)) : computeGetitemSiz
 /-- **`_is_tensor_index_moved_to_start`** answers `True` exactly when the first index is a tensor or the tensor
 positions are not adjacent (tensor … slice … tensor, ints ignored) — for index tuples of any length. -/
 theorem movedToStart_iff_nonadjacent (k : K) (l : List K) :
-    movedToStart (k :: l) = (decide (k = K.T) || hasTST (k :: l)) := by
-  have go : ∀ (l : List K),
-      movedGo false true l = hasTST l ∧ movedGo true true l = hasST l ∧ movedGo true false l = hasT l := by
-    intro l
-    induction l with
-    | nil => simp [movedGo, hasTST, hasST, hasT]
-    | cons x r ih =>
-      obtain ⟨h1, h2, h3⟩ := ih
-      cases x <;> simp [movedGo, hasTST, hasST, hasT, h1, h2, h3]
-  cases k <;> simp [movedToStart, hasTST, (go l).1]
+    movedToStart (k :: l) = (decide (k = K.T) || hasTST (k :: l)) := movedToStart_cases k l
 
 /-- in the non-moved case the tensor dims sit after exactly the slices that precede the first tensor, and when
 `movedToStart` holds the torch position is 0 — so `__getitem__`'s un-flattening rule uses the torch position
 whenever the tensor block is first or last among the result dims. -/
-theorem movedToStart_specPos (k : K) (l : List K) (h : movedToStart (k :: l) = true) : specPos (k :: l) = 0 := by
-  rw [movedToStart_iff_nonadjacent] at h
-  cases k with
-  | T => unfold specPos; simp only [hasTST, slicesBeforeT]; by_cases hh : hasST l = true <;> simp [hh]
-  | I => simp_all [specPos, hasTST, slicesBeforeT]
-  | S => simp_all [specPos, hasTST, slicesBeforeT]
+theorem movedToStart_specPos (k : K) (l : List K) (h : movedToStart (k :: l) = true) : specPos (k :: l) = 0 :=
+  movedToStart_specPos' k l h
 
 /-- **Python `slice.indices` model**: the index list has the length given by the closed formula. -/
 theorem sliceIndices_length (n : Nat) (a b c : Option Int) : (sliceIndices n a b c).length = sliceLen n a b c := by
@@ -310,6 +297,97 @@ theorem kron_getIndices (fs : List Factor) (i j : Nat)
 /-- the hypotheses of `kron_getIndices` are satisfiable by a non-trivial instance (2×3 ⊗ 2×2, entry (3, 5)) -/
 example : kronModel [(fun a b => (a : Int) + 2 * b + 1, 2, 3), (fun a b => (a : Int) * 3 + b + 1, 2, 2)] 3 5
     = ((1 : Int) + 2 * 2 + 1) * (1 * 3 + 1 + 1) := by decide
+
+/-- **`_convert_indices_to_tensors` is sound (entry level)**: for every rank, every mix of ints, slices (any bounds
+/ step) and tensor indices of any shapes, and every result coordinate `r` (one dim per slice, so
+`#slices ≤ r.length`), indexing with the converted all-tensor tuple — slice number `q` occupying result dim
+`num_singletons_before`, the tensor indices occupying the `k` dims at `num_singletons_before_tensor`, the start
+position chosen by `_is_tensor_index_moved_to_start` — reads exactly the source entry torch's mixed
+int/slice/tensor indexing reads.  Induction over the index list through the phases of the counters. -/
+theorem convertIndices_sound (zi : List (Nat × Item)) (r : List Nat) (hr : (sliceLens zi).length ≤ r.length) :
+    convSrc (bcAll (tensorShapes zi)).length zi r = specSrc (bcAll (tensorShapes zi)).length zi r :=
+  convSrc_eq_specSrc zi r hr
+
+/-- … hence the whole result (all coordinates, row-major) agrees with the spec's element map. -/
+theorem convertIndices_elems (dims : List Nat) (zi : List (Nat × Item)) : convElems dims zi = specElems dims zi := by
+  unfold convElems specElems
+  apply List.map_congr_left
+  intro r hr
+  have hl := box_length _ r hr
+  have := convSrc_eq_specSrc zi r (by have := specShape_length_ge zi; omega)
+  rw [this]
+  simp only [specSrc, List.isEmpty_iff]
+
+/-- non-trivial instance: `x[t, 1:3, t']` on a 4×5×6 tensor with broadcasting index tensors (non-adjacent → front) -/
+example : convElems [4, 5, 6] [(4, .tensor [2] [0, 3]), (5, .slice (some 1) (some 3) none), (6, .tensor [2] [5, 1])]
+    = [11, 17, 97, 103] := by decide
+
+/-- **`getitem_refines`, `_get_indices` path (generic)**: for an unbatched operator whose `_get_indices` arithmetic
+`cls` agrees with the dense matrix on all in-range entries, `op[idx]` computed by `__getitem__` (flatten →
+`_convert_indices_to_tensors` → `_get_indices`) equals torch indexing of the dense matrix — for every index
+tuple whose source indices are in range (`hin`; guaranteed for valid indices: slices by `sliceIndices_inRange`,
+ints / tensor entries by the range check at the top of `__getitem__`). -/
+theorem getIndices_refines (cls dense : Nat → Nat → Int) (R C : Nat)
+    (h : ∀ i j, i < R → j < C → cls i j = dense i j) (zi : List (Nat × Item))
+    (hin : ∀ r ∈ box (specShape zi),
+      (specSrc (bcAll (tensorShapes zi)).length zi r).getD 0 0 < R ∧
+      (specSrc (bcAll (tensorShapes zi)).length zi r).getD 1 0 < C) :
+    getitemViaGetIndices cls zi = denseGetitem dense zi := by
+  unfold getitemViaGetIndices denseGetitem
+  apply List.map_congr_left
+  intro r hr
+  have hl := box_length _ r hr
+  have hc := convSrc_eq_specSrc zi r (by have := specShape_length_ge zi; omega)
+  simp only [hc]
+  exact h _ _ (hin r hr).1 (hin r hr).2
+
+/-- Dense: `_get_indices` reads the stored tensor. -/
+theorem dense_getitem_refines (T : Nat → Nat → Int) (R C : Nat) (zi : List (Nat × Item))
+    (hin : ∀ r ∈ box (specShape zi),
+      (specSrc (bcAll (tensorShapes zi)).length zi r).getD 0 0 < R ∧
+      (specSrc (bcAll (tensorShapes zi)).length zi r).getD 1 0 < C) :
+    getitemViaGetIndices T zi = denseGetitem T zi :=
+  getIndices_refines T T R C (fun _ _ _ _ => rfl) zi hin
+
+/-- Diag: `diag[row] * (row == col)` against the diagonal matrix. -/
+theorem diag_getitem_refines (d : Nat → Int) (n : Nat) (zi : List (Nat × Item))
+    (hin : ∀ r ∈ box (specShape zi),
+      (specSrc (bcAll (tensorShapes zi)).length zi r).getD 0 0 < n ∧
+      (specSrc (bcAll (tensorShapes zi)).length zi r).getD 1 0 < n) :
+    getitemViaGetIndices (diagGet d) zi = denseGetitem (fun i j => if i = j then d i else 0) zi :=
+  getIndices_refines _ _ n n (fun i j _ _ => by unfold diagGet; by_cases hij : i = j <;> simp [hij]) zi hin
+
+/-- Kronecker (any number of factors): div/fmod chain against `A₁ ⊗ … ⊗ A_P`. -/
+theorem kron_getitem_refines (fs : List Factor) (zi : List (Nat × Item))
+    (hin : ∀ r ∈ box (specShape zi),
+      (specSrc (bcAll (tensorShapes zi)).length zi r).getD 0 0 < prodNat (rowsOf fs) ∧
+      (specSrc (bcAll (tensorShapes zi)).length zi r).getD 1 0 < prodNat (colsOf fs)) :
+    getitemViaGetIndices (kronModel fs) zi = denseGetitem (kronSpec fs) zi :=
+  getIndices_refines _ _ _ _ (fun i j hi hj => kron_getIndices fs i j hi hj) zi hin
+
+/-- BlockDiag (any number of `m × n` blocks): div/fmod + mask against the block-diagonal matrix. -/
+theorem blockDiag_getitem_refines (m n : Nat) (hm : 0 < m) (hn : 0 < n) (Bs : List (Nat → Nat → Int))
+    (zi : List (Nat × Item))
+    (hin : ∀ r ∈ box (specShape zi),
+      (specSrc (bcAll (tensorShapes zi)).length zi r).getD 0 0 < m * Bs.length ∧
+      (specSrc (bcAll (tensorShapes zi)).length zi r).getD 1 0 < n * Bs.length) :
+    getitemViaGetIndices (blockDiagGet m n Bs) zi = denseGetitem (blockDiagSpec m n Bs) zi :=
+  getIndices_refines _ _ _ _ (fun i j hi hj => blockDiag_entry m n hm hn Bs i j hi hj) zi hin
+
+/-- Cat along the rows (any number of pieces): piece / local-row lookup against the stacked matrix. -/
+theorem catRows_getitem_refines (pieces : List ((Nat → Nat → Int) × Nat)) (C : Nat) (zi : List (Nat × Item))
+    (hin : ∀ r ∈ box (specShape zi),
+      (specSrc (bcAll (tensorShapes zi)).length zi r).getD 0 0 < sumNat (pieces.map (·.2)) ∧
+      (specSrc (bcAll (tensorShapes zi)).length zi r).getD 1 0 < C) :
+    getitemViaGetIndices (catRowsGet pieces) zi = denseGetitem (catRowsSpec pieces) zi :=
+  getIndices_refines _ _ _ C (fun i j hi _ => catRows_entry pieces i j hi) zi hin
+
+/-- the hypotheses are satisfiable and the statement non-trivial: `K[[5,0,3],[1,2,0]]` on a 2×3 ⊗ 3×1 Kronecker operator -/
+example :
+    getitemViaGetIndices (kronModel [(fun a b => (a : Int) + 2 * b + 1, 2, 3), (fun a _ => (a : Int) - 1, 3, 1)])
+      [(6, .tensor [3] [5, 0, 3]), (3, .tensor [3] [1, 2, 0])] = [4, -5, -2] ∧
+    denseGetitem (kronSpec [(fun a b => (a : Int) + 2 * b + 1, 2, 3), (fun a _ => (a : Int) - 1, 3, 1)])
+      [(6, .tensor [3] [5, 0, 3]), (3, .tensor [3] [1, 2, 0])] = [4, -5, -2] := by decide
 
 /-- **Translator obligation**: the index arithmetic extracted (Python `ast`) from /repo's working tree — which
 operations, with which rounding mode, in which order, each class's `_get_indices` / `_split_slice` and the
